@@ -185,6 +185,7 @@ type Scenario struct {
 	GRHI, GRLO int
 	GWPhase    int
 	GWSeries   []GWPoint
+	GWAligned  bool // the series was shifted so that an entry sits at the edge of the simulated period
 
 	Weather WeatherSpec
 
@@ -885,6 +886,20 @@ func genGWSeries(sc *Scenario, r *Rng) {
 		default:
 			level = float64(r.Range(5, (n+8)*10)) / 10
 		}
+	}
+	// a third of the series are shifted as a whole so that one of their entries (the first, the last or any) sits on, one
+	// day after, one or two days before the simulation start, or around the end date
+	if r.Bool(0.35) {
+		node := sc.GWSeries[[]int{0, len(sc.GWSeries) - 1, r.Intn(len(sc.GWSeries))}[r.Intn(3)]].D.Zeit()
+		target := sc.Start.Zeit() + r.Range(-2, 1)
+		if sc.End.Y != 0 && r.Bool(0.3) {
+			target = sc.End.Zeit() + r.Range(-1, 1)
+		}
+		shift := target - node
+		for i := range sc.GWSeries {
+			sc.GWSeries[i].D = sc.GWSeries[i].D.AddDays(shift)
+		}
+		sc.GWAligned = true
 	}
 }
 
